@@ -290,6 +290,10 @@ func c03Random(r *rt.Rec, rng *rand.Rand, n int) {
 		}
 		all := gen.AllTriples(data)
 		cs := gen.RandomPattern(rng, shapes, all, 2+rng.Intn(3))
+		if rng.Intn(4) == 0 {
+			// a clause whose bound takes its limits from time bindings of earlier clauses
+			cs, _ = gen.AddBoundAlias(rng, cs[:1+rng.Intn(len(cs))])
+		}
 		// 1-3 FROM graphs out of those that exist
 		var graphs []string
 		for _, g := range gen.GraphVars[:len(data)] {
@@ -320,12 +324,12 @@ func init() {
 	register(&rt.Check{
 		ID:    "C03",
 		Level: "exploration",
-		Rule: "(a) the one-clause shape space: subject {stored, absent, binding} x extractions {-, AS, TYPE, ID, TYPE+ID, AS+TYPE+ID}; predicate {immutable stored/absent, temporal, temporal in another zone, binding, \"id\"@[?t], \"id\"@[,], \"id\"@[T1,T2], \"id\"@[T2,]} x {-, AS, ID, AT, ...}; object {node, literal, predicate, binding, the subject's binding again, \"p\"@[?t], \"p\"@[T1,T2]} x {-, AS, TYPE, ID, AT, ...} (quick: at most one extraction; thorough: all ~27k shapes) on two data sets; (b) two-clause combinations of a reduced shape set sharing 0-2 bindings in any position pair (quick: sampled, thorough: all); (c) random 2-4 clause patterns with shared bindings, global BEFORE/AFTER/BETWEEN, 1-3 FROM graphs, projections with aliases; all rendered to BQL text and run through lexer, parser, planner and Execute; " +
+		Rule: "(a) the one-clause shape space: subject {stored, absent, binding} x extractions {-, AS, TYPE, ID, TYPE+ID, AS+TYPE+ID}; predicate {immutable stored/absent, temporal, temporal in another zone, binding, \"id\"@[?t], \"id\"@[,], \"id\"@[T1,T2], \"id\"@[T2,]} x {-, AS, ID, AT, ...}; object {node, literal, predicate, binding, the subject's binding again, \"p\"@[?t], \"p\"@[T1,T2]} x {-, AS, TYPE, ID, AT, ...} (quick: at most one extraction; thorough: all ~27k shapes) on two data sets; (b) two-clause combinations of a reduced shape set sharing 0-2 bindings in any position pair (quick: sampled, thorough: all); (c) random 2-4 clause patterns with shared bindings, bounds whose limits are time bindings of earlier clauses (\"id\"@[?lo,?hi]), global BEFORE/AFTER/BETWEEN, 1-3 FROM graphs, projections with aliases; all rendered to BQL text and run through lexer, parser, planner and Execute; " +
 			"oracle: naive nested-loop evaluator of Appendix A, rows compared as multisets of kind-tagged canonical cells (sets when a triple sits in several listed graphs); an Execute error is a violation; non-trivial = reference result non-empty and the data holds a near miss (matches all but one component of a clause); distinct by statement text",
 		Assume: []string{"reference semantics of DESIGN.md Appendix A (taken from the property and docs/bql.md)", "TYPE/ID string bindings are never reused in subject/predicate/object position (join of str with text literal is undefined)"},
 		Floor:  300,
 		Phases: func(tier string, seed int64) []rt.Phase {
-			maxExtr, twoLimit, rnd := 1, 3000, 1000
+			maxExtr, twoLimit, rnd := 1, 3000, 2000
 			if tier == "thorough" {
 				maxExtr, twoLimit, rnd = -1, 0, 20000
 			}
